@@ -86,7 +86,11 @@ func randomRealistic(r *rand.Rand) (string, string) {
 	case 2:
 		p = "ucan:*"
 	case 3: // proper wildcard of a prefix segment
-		if i := strings.LastIndex(c, sep); sep != "" && i > 0 {
+		i := strings.LastIndex(c, sep)
+		if r.Intn(2) == 0 {
+			i = strings.Index(c, sep) // the shortest parent namespace instead of the longest
+		}
+		if sep != "" && i > 0 {
 			p = c[:i] + sep + "*"
 		} else {
 			p = c + "*"
